@@ -195,3 +195,24 @@ void h_merge_from_nested_same_name() { merge_from_case(1); }
 void h_merge_from_shared_second() { merge_from_case(2); }
 void h_merge_from_disjoint() { merge_from_case(3); }
 void h_merge_from_unnamed() { merge_from_case(4); }
+
+// ================= merge_from: A and B share TWO types, T (which refers to U) and U; whichever definition of T survives,
+// its references are indices of the merged database (closure), for every combination of fully-defined / global flags
+void h_merge_from_two_shared() {
+  const int ia_t = 2, ia_u = 3, ib_t = 7, ib_u = 8;          // disjoint index ranges (read() renumbers first)
+  static InterrogateType ta_t, ta_u, tb_t, tb_u;
+  g_vu_shape = 0; g_vu_k = 0;
+  havoc_InterrogateType(ta_t); havoc_InterrogateType(ta_u); havoc_InterrogateType(tb_t); havoc_InterrogateType(tb_u);
+  g_vu_shape = -1;
+  ta_t._name = "T"; ta_t._true_name = "T"; tb_t._name = "T"; tb_t._true_name = "T";
+  ta_u._name = "U"; ta_u._true_name = "U"; tb_u._name = "U"; tb_u._true_name = "U";
+  ta_t._outer_class = 0; ta_t._wrapped_type = ia_u; ta_t._destructor = 0; ta_u._outer_class = 0; ta_u._wrapped_type = 0; ta_u._destructor = 0;
+  tb_t._outer_class = 0; tb_t._wrapped_type = ib_u; tb_t._destructor = 0; tb_u._outer_class = 0; tb_u._wrapped_type = 0; tb_u._destructor = 0;
+  g_db._type_map[ia_t] = ta_t; g_db._type_map[ia_u] = ta_u; g_db._all_types.push_back(ia_t); g_db._all_types.push_back(ia_u);
+  g_other._type_map[ib_t] = tb_t; g_other._type_map[ib_u] = tb_u;
+  g_db.merge_from(g_other);
+  OBL(g_db._type_map._n == 2 && g_db._type_map.count(ia_t) == 1 && g_db._type_map.count(ia_u) == 1, "C13.merge_from: both shared types are identified with the existing ones");
+  int w = g_db._type_map[ia_t]._wrapped_type;
+  OBL(w == ia_u, "C13.merge_from: whichever definition of a shared type survives (ours or theirs, by the fully-defined / global rule), its references are carried over to the merged indices: T still refers to the one merged U");
+  VU_REACHED();
+}
